@@ -752,6 +752,16 @@ fn prealloc_cases(out: &mut Vec<String>, thorough: bool) {
     penc("txin", &|lay| lay_txin(&TxIn { prev_output: OutPoint { hash: h, index: 1 }, unlock_script: Script(b.clone()), sequence: 2 }, lay));
     penc("filteradd", &|lay| lay_filteradd(&FilterAdd { data: b.clone() }, lay));
     penc("authch", &|lay| lay_authch(&Authch { version: 1, message_length: b.len() as u32, message: b.clone() }, lay));
+    // element COUNTS at which a capped pre-allocation of N-byte elements stops covering the list (cap / N, for the element sizes
+    // a decoder may plausibly use), where the protocol's own limit on the count is higher: the inventory lists (up to 50 000)
+    let mut counts: Vec<usize> = vec![];
+    for e in [32usize, 36, 40, 48] { let c = l / e; for d in [c.saturating_sub(1), c, c + 1] { if d > 0 && d <= 50_000 && !counts.contains(&d) { counts.push(d); } } }
+    counts.push(50_000);
+    if !thorough { counts.retain(|c| [l / 36, l / 36 + 1, l / 32 + 1, 50_000].contains(c)); }
+    for n in counts {
+        let inv = Inv { objects: (0..n).map(|i| InvVect { obj_type: 1 + (i as u32 % 3), hash: Hash256([(i % 251) as u8; 32]) }).collect() };
+        penc("inv", &|lay| lay_inv(&inv, lay));
+    }
 }
 
 pub fn gen(tier: &str, rng: &mut Rng, out: &mut Vec<String>) {
